@@ -23,10 +23,21 @@ import DdoModel.Examples.AlpDp
 * `wfRel` (`AlpProofsWf.lean`): the `WfRel` instance (potential `best`); `alp_relaxed_ub_partial`: the corollary of the generic
   relaxed-diagram theorem, conditional on `NoClampDom`, which `noClampDom_false` shows to be false for this model (the clause
   quantifies over ill-shaped states too);
-* still stated only, evaluated pointwise by the driver: `DpExactStmt` (value of a prefix + best completion = minus the least
-  delay of the specification `Alp.delay` among the schedules extending the prefix; missing: the exchange argument inside a
-  class — landing a class in file order loses nothing, where the sorted targets / latest times enter —, separation from ALL
-  earlier landings of the runway vs the last one only, and the identification of sorted runways with physical ones). -/
+* `DpExactStmt` (value of a prefix + best completion = minus the least delay of the specification `Alp.delay` — every
+  order, every runway assignment, each landing as early as possible — among the schedules extending the prefix):
+  **theorem** `dpExact` (`AlpProofsPrefix.lean`), on every instance of the input domain; `DpExactRootStmt` (end of this file:
+  the empty prefix): **theorem** `dpExactRoot` / `root_exact` (`AlpProofsExact.lean`).  Proof: the value-to-go of ANY valid
+  state is the best worth of a schedule (`Sched`) of the remaining aircraft from the physical runways of the state
+  (`sched_le_best`: the exchange argument inside a class — the earliest event of a schedule is answered by landing the
+  first remaining aircraft of its class, where the sorted targets / latest times enter; `best_sched`: separation from the
+  last landing of a runway implies separation from all of them, by the triangle inequality; sorted runways vs physical
+  ones: `sortRw_eq_of_perm`, `set_perm_of_perm`); schedules from the root are the solutions of the declarative problem
+  `Ddo.C16.AlpD.Feasible` (`Props/C16.lean`); for a prefix, `replayPhys` keeps the invariant `RInv` (the tagged stable sort
+  carries the physical identities; the landings of the specification stay compatible with the runway states: `Compat`);
+* `alp_relaxed_ub` (`AlpProofsClosed.lean`): the closed corollary of the generic relaxed-diagram theorem through
+  `CoverRel.relaxed_ub_rel_valid` (`NoClampRel` on valid states: `noClampRel`, for latest times within `B`,
+  `(n + 2) · B ≤ 2^62`), against the specification `Alp.spec`; non-vacuity instance `Demo`.
+  Nothing is left stated-only. -/
 namespace Ddo.Examples.AlpModel
 open Ddo Ddo.Examples Ddo.Examples.Util
 
@@ -153,5 +164,10 @@ def MergeOkValidStmt : Prop :=
 def DomAdmissibleValidStmt : Prop :=
   I.inDomain = true → ∀ (a b : St), StValid I a → StValid I b → keyOf a = keyOf b →
     (∀ i : Nat, i < I.nbRunways → domRule.coord b i ≤ domRule.coord a i) → best I b ≤ best I a
+
+/-- `DpExactStmt` at the root (the empty prefix): the best completion of the root is minus the least total delay of the
+    specification, `none` when no schedule is feasible -/
+def DpExactRootStmt : Prop :=
+  I.inDomain = true → best I (initState I) = (specExt I []).map (fun d => -d)
 
 end Ddo.Examples.AlpModel
